@@ -96,8 +96,58 @@ def run_batch(hx, muts, run_accepted=True):
             res += run_batch(hx, c[:mid], run_accepted) + run_batch(hx, c[mid:], run_accepted)
     return res
 
+def roundtrip_family(rep, tier):
+    """first sentence of the property: MechBytecodeEnc (byte-exact model of the instruction section; RoundTrip, SizeLaw and
+    injectivity checked by TLC) enumerates instruction lists; the REAL compiler context writes each list into a real file,
+    the REAL loader decodes it: section bytes, decoded instructions, header counts, symbols, constants and the re-encoded
+    file are compared with what was written."""
+    from fractions import Fraction as F
+    import absval
+    cfg = "MC_C07r_quick.cfg" if tier == "quick" else "MC_C07r_thorough.cfg"
+    t = tlc.run("MC_C07r", cfg, workers=8, timeout=1800, xss="64m")
+    if t.violations or not t.ok:
+        rep.fail("C07/roundtrip/model", "TLC reported a violation on MechBytecodeEnc: " + "; ".join(t.errors[:3]), {"log": t.log})
+    cases = sorted(t.cases, key=lambda c: json.dumps(c, sort_keys=True))
+    NCONST = 301
+    # exactly ONE symbol: the symbol and dictionary sections are written in hash-map iteration order on both sides, so
+    # with two or more entries re-encoding is order-dependent; Interpreter::compile never emits symbols (define_symbol has
+    # no caller), hence files with several symbols are not "bytes the compiler emits" and are left out
+    syms = [{"name": "bq", "reg": 7, "ptr": 2, "mutable": True}]
+    reqs = [{"id": i, "mode": "ctx", "instrs": c["instrs"], "nconst": NCONST, "symbols": syms} for i, c in enumerate(cases)]
+    outs = execpool.run_requests(reqs, nworkers=16, timeout=120, mem_limit_mb=2048)
+    ok = 0
+    for c, req, (resp, oc) in zip(cases, reqs, outs):
+        ops = "+".join(i["op"] for i in c["instrs"])
+        replay = {"instrs": c["instrs"], "model_hex": c["hex"]}
+        if oc != "ok" or not resp:
+            rep.fail(f"C07/roundtrip/host-{oc}", f"instruction list {ops}: process {oc} while emitting/loading", replay); continue
+        if resp.get("r") != "ok":
+            rep.fail(f"C07/roundtrip/emitted-file-{resp.get('r')}", f"instruction list {ops}: a file written by the compiler context does not load: {resp}", replay); continue
+        want = [{"op": i["op"], "fxn": i["fxn"], "dst": i["dst"], "args": list(i["args"])} for i in c["instrs"]]
+        if resp["section"] != c["hex"]:
+            rep.fail(f"C07/roundtrip/instr-bytes/{ops}", f"instruction section is {resp['section']}, the byte-exact model gives {c['hex']}", replay); continue
+        if resp["decoded"] != want:
+            k = next((j for j, (a, b) in enumerate(zip(resp["decoded"], want)) if a != b), min(len(want), len(resp["decoded"])))
+            rep.fail(f"C07/roundtrip/decoded-instr/{want[k]['op'] if k < len(want) else 'extra'}",
+                     f"instruction {k} of {ops} was written as {want[k] if k < len(want) else None} and decoded as {resp['decoded'][k] if k < len(resp['decoded']) else None}", replay); continue
+        h = resp["header"]
+        if int(h["instr_count"]) != len(want) or int(h["instr_len"]) != c["size"] or int(h["const_count"]) != NCONST:
+            rep.fail("C07/roundtrip/header-counts", f"{ops}: header {h} vs {len(want)} instructions of {c['size']} bytes, {NCONST} constants", replay); continue
+        if not resp["reenc_eq"]:
+            rep.fail(f"C07/roundtrip/reencode/{ops}", f"{ops}: decode + re-encode does not reproduce the emitted bytes", replay); continue
+        if resp["symbols"] != [{"name": x["name"], "reg": x["reg"], "mutable": x["mutable"]} for x in syms]:
+            rep.fail("C07/roundtrip/symbols", f"{ops}: symbols decoded as {resp['symbols']}", replay); continue
+        cv = [absval.absval(x) for x in resp["consts"]]
+        if cv != [('num', 'f64', F(2 * k + 1, 2)) for k in range(NCONST)]:
+            rep.fail("C07/roundtrip/constants", f"{ops}: constants decoded differently from what was written", replay); continue
+        ok += 1
+    log(f"[C07] round trip: {len(cases)} instruction lists written by the real compiler context, {ok} decoded byte- and field-exact")
+    rep.cov.update({"roundtrip_instruction_lists": len(cases), "roundtrip_exact": ok, "roundtrip_model_states": t.generated})
+    return len(cases)
+
 def run(rep, tier, seed):
     rnd = random.Random(seed)
+    nrt = roundtrip_family(rep, tier)
     progs = PROGRAMS if tier != "quick" else PROGRAMS[:8]
     reqs = [{"id": i, "mode": "bytecode", "stmts": p, "want_bytes": True} for i, p in enumerate(progs)]
     outs = execpool.run_requests(reqs, nworkers=8, timeout=60, mem_limit_mb=4096)
@@ -155,7 +205,7 @@ def run(rep, tier, seed):
                 tally["accepted_harmless"] += 1
             else: tally["rejected"] += 1
     log(f"[C07] {nloads} mutated files loaded: {dict(tally)}")
-    rep.cov.update({"states": t.generated, "transitions": max(t.generated - 1, 1), "traces_validated_against_impl": nloads,
+    rep.cov.update({"states": t.generated, "transitions": max(t.generated - 1, 1), "traces_validated_against_impl": nloads + nrt,
                     "emitted_files": len(files), "fault_classes": len(faults), "mutated_files_loaded": nloads, **tally, "exhaustive": True,
                     "rule": "for every emitted file: every truncation length and every single-bit flip of every region, bursts of widths 2..32 at byte-aligned and random (quick) / all (thorough) bit offsets, appended bytes, every header length/offset/count field and constant-table entry field set to 11 boundary values with the CRC recomputed, instruction bytes overwritten, random byte strings with and without a valid CRC; from_bytes, decode_const_entries and run_program under a 1 GiB address-space limit"})
     rep.add_samples([{"program": p, "bytes": total} for p, _, _, total in files])
